@@ -476,3 +476,67 @@ CLASSIFY = {
     "h_mut_renew_lease": lambda dl, elo, nx, which, enew, c, p: _run_mut_renew(dl, elo, nx, which, enew, c)[0],
     "h_upload": lambda size, split, c, p: _run_upload(size, split, c)[0],
 }
+
+
+# ---- deleting one share of a slot (new_length == 0) must leave its sibling shares alone ------------------------
+
+_evalw = hlib.strip_logs(X.SS._evaluate_write_vectors)
+hlib.encoded(MSF.unlink)
+
+
+def _run_delete(dl1, elo1, nx, third, c):
+    X.reset()
+    ss = X.mk_server()
+    slots, extras = list(_SLOTS), _EXTRAS[:nx]
+    X.mk_mutable(X.share_path(0), 7, DATA_OFFSET + 7, list(_SLOTS), [])
+    X.mk_mutable(X.share_path(1), dl1, elo1, slots, extras)
+    shares = {0: MSF(X.share_path(0), ss), 1: MSF(X.share_path(1), ss)}
+    if third:
+        X.mk_mutable(X.share_path(2), 3, DATA_OFFSET + 3, list(_SLOTS), [])
+        shares[2] = MSF(X.share_path(2), ss)
+    secrets = (X.WE_GOOD, X.tok("R", 1), X.tok("C", 1))
+    tw = {0: ([], [], 0)}
+    if third:
+        tw[2] = ([], [], 0)
+    out = []
+    crashed = _crashing(c, lambda: out.append(_evalw(ss, X.BUCKET, secrets, tw, shares)))
+    cls = crash_class("delete-share") if crashed else "no-crash"
+    return cls, crashed, slots, extras, out
+
+
+def h_delete_sibling(dl1: int, elo1: int, nx: int, third: bool, c: int, p: int) -> bool:
+    """
+    pre: X.mutable_inv(dl1, elo1) and 0 <= nx <= 1 and 0 <= c <= 3 and 0 <= p
+    post: _ == True
+    """
+    return X.guard(_h_delete_sibling, dl1, elo1, nx, third, c, p)
+
+
+def _h_delete_sibling(dl1, elo1, nx, third, c, p):
+    cls, crashed, slots, extras, out = _run_delete(dl1, elo1, nx, third, c)
+    assume(cls not in EXCLUDED)
+    # share 1 is not named by the request: whatever happened to shares 0 / 2 (and wherever the process died),
+    # it keeps its container, data and leases
+    st = FS.get(X.share_path(1))
+    if st is None:
+        return "deleting other shares of the slot removed a share the request does not name"
+    bad = _mheader_ok(X.share_path(1))
+    if bad:
+        return bad
+    (dlf,) = X.rec_values(st, MSF.DATA_LENGTH_OFFSET, ">Q")
+    if dlf != dl1 or (p < dl1 and st.at(DATA_OFFSET + p) != ("old", p)):
+        return "deleting other shares changed the data of a share the request does not name"
+    got = _mleases_after(X.share_path(1))
+    if isinstance(got, str):
+        return got
+    if got != [tuple(r.values) for r in slots + extras]:
+        return "deleting other shares changed the leases of a share the request does not name"
+    if not crashed:
+        if FS.os.path.exists(X.share_path(0)) or (third and FS.os.path.exists(X.share_path(2))):
+            return "completed delete left the share"
+        if sorted(out[0].keys()) != []:
+            return "deleted shares reported as remaining"
+    return True
+
+
+CLASSIFY["h_delete_sibling"] = lambda dl1, elo1, nx, third, c, p: _run_delete(dl1, elo1, nx, third, c)[0]
